@@ -58,6 +58,33 @@ def judge(rec, opts):
     return out
 
 
+def judge_msg(rec, opts):
+    """The message templates of LiquidMsg.tla (translate tags with data-supplied message variables,
+    translation filters on data) rendered with auto-escape on and hostile data."""
+    from liquid2 import Environment
+    from liquid2.exceptions import LiquidError
+    env = opts.get("_env")
+    if env is None:
+        env = opts["_env"] = Environment(auto_escape=True)
+    evil = "<b a='1'&!c=\"2\">"
+    try:
+        out = env.from_string(rec["src"]).render(m=evil, pl="<p>&!" + evil, cx=evil, n=2, yes=True, no=False)
+    except LiquidError:
+        return []
+    leak = raw_leak(out)
+    if leak is not None:
+        kinds = "+".join(f"{it['k']}:{it['f']}:{it['site']}" for it in rec["items"])[:80]
+        return [(f"raw-{leak}:translate:{kinds}", {"src": rec["src"], "got": out})]
+    return []
+
+
+def _judge_msg(rec, opts):
+    return judge_msg(rec, _OPTS)
+
+
+_OPTS: dict = {}
+
+
 def check(tier: str) -> int:
     chk = Check("C04", tier)
     chk.assumptions += ["template literals contain no HTML-significant character and `safe` is not used (the property's quantifier)",
@@ -79,6 +106,18 @@ def check(tier: str) -> int:
             gen.replay_file(chk, r.workdir / "out.ndjson", "harness.c04", "judge", {"compare": False})
         finally:
             r.cleanup()
+    from . import tlc
+    for variant in ("tags", "filters"):
+        r = tlc.run("LiquidMsg", tlc.cfg_text(constants={"MaxTop": "1", "Focus": f'"escape-msg-{variant}"', "Variant": f'"{variant}"'},
+                                              invariants=["Export"]), tag=f"escape-msg-{variant}", timeout=3000)
+        try:
+            if r.error:
+                chk.machinery_error = r.error
+                continue
+            chk.tlc(r, f"message templates under auto-escape ({variant})")
+            gen.replay_file(chk, r.workdir / "out.ndjson", "harness.c04", "_judge_msg")
+        finally:
+            r.cleanup()
     return chk.finish()
 
 
@@ -86,6 +125,10 @@ def replay_file(path: str) -> int:
     import json
     d = json.load(open(path))
     rec = d["record"]["record"] if "record" in d["record"] else d["record"]
+    if "items" in rec:
+        res = judge_msg(rec, {})
+        print(rec["src"], res)
+        return 1 if res else 0
     got, _ = replay.render_record(rec)
     print(rec["templates"], rec["data"])
     print("got:", got)
